@@ -283,6 +283,11 @@ def gen_clf_spec(g: SimRng, kind, classes, allow_cost=True):
             p["n_neighbors"] = g.pick([1, 2, 5])
         if g.chance(0.3):
             p["class_prior"] = g.pick([0.5, 1.0])
+        if g.chance(0.12):
+            # another non-negative kernel (its keyword dict is the caller's as well)
+            p["metric"] = "laplacian"
+            if isinstance((p.get("metric_dict") or {}).get("gamma"), str):
+                p["metric_dict"] = {"gamma": 0.5}
         return {"kind": "pwc", "params": p}
     if kind == "mixture":
         if g.chance(0.5):
@@ -312,6 +317,8 @@ def gen_clf_spec(g: SimRng, kind, classes, allow_cost=True):
         p.update(n_annotators=na, max_iter=g.pick([5, 20]))
         if g.chance(0.3):
             p["solver_dict"] = {"maxiter": 5}
+        if g.chance(0.3):
+            p.update(g.pick([{"fit_intercept": False}, {"annot_prior_full": 2.0, "annot_prior_diag": 1.0}, {"weights_prior": 0.5}, {"tol": 1e-2}, {"annot_prior_full": [1.0] * na, "annot_prior_diag": [0.5] * na}]))
         return {"kind": "annot_lr", "n_annotators": na, "params": p}
     raise KeyError(kind)
 
@@ -326,6 +333,8 @@ def gen_reg_spec(g: SimRng, kind):
             p["metric_dict"] = {"gamma": g.pick([0.1, 1.0, 5.0])}
         elif r < 0.5:
             p["metric_dict"] = {}
+        if g.chance(0.12):
+            p["metric"] = "laplacian"
         if kind == "nic":
             if g.chance(0.5):
                 # (a prior centred on far-away targets: then the data, not the prior/data disagreement, decides the scale)
